@@ -424,3 +424,75 @@ def parse_args(argv):
     a = ap.parse_args(argv)
     a.seed = int(os.environ.get("VERIF_SEED", "1"))
     return a
+
+
+# ------------------------------------------------------------------------------------------
+# running Cb programs on the interpreter built from the working tree
+# ------------------------------------------------------------------------------------------
+
+def exit_class(rc):
+    if rc == 0:
+        return "ok"
+    if rc is None:
+        return "timeout"
+    if rc < 0 or rc >= 128:
+        return "signal"
+    return "error"
+
+
+def run_programs(exe, programs, timeout=10, jobs=JOBS, args=(), cwd_links=None, env=None):
+    """run each program text (str) or (text, extra_args); returns list of (stdout, exit_class, stderr_tail).
+    Each worker has its own directory inside the scratch dir."""
+    from concurrent.futures import ThreadPoolExecutor
+    base = os.path.join(scratch(), "run")
+    os.makedirs(base, exist_ok=True)
+    dirs = []
+    for j in range(jobs):
+        d = os.path.join(base, "w%d" % j)
+        os.makedirs(d, exist_ok=True)
+        if cwd_links:
+            for name, target in cwd_links.items():
+                lp = os.path.join(d, name)
+                if not os.path.lexists(lp):
+                    os.symlink(target, lp)
+        dirs.append(d)
+    import queue
+    free = queue.Queue()
+    for d in dirs:
+        free.put(d)
+    e = dict(os.environ)
+    if env:
+        e.update(env)
+
+    def one(k):
+        p = programs[k]
+        extra = list(args)
+        files = None
+        if isinstance(p, tuple):
+            if len(p) == 3:
+                p, ex, files = p
+            else:
+                p, ex = p
+            extra = extra + list(ex)
+        d = free.get()
+        try:
+            fn = os.path.join(d, "t.cb")
+            with open(fn, "w") as f:
+                f.write(p)
+            if files:
+                for name, content in files.items():
+                    fp = os.path.join(d, name)
+                    os.makedirs(os.path.dirname(fp), exist_ok=True)
+                    with open(fp, "w") as f:
+                        f.write(content)
+            try:
+                r = subprocess.run([exe, "t.cb"] + extra, cwd=d, stdout=subprocess.PIPE, stderr=subprocess.PIPE,
+                                   timeout=timeout, env=e)
+                return (r.stdout.decode("utf-8", "replace"), exit_class(r.returncode),
+                        r.stderr.decode("utf-8", "replace")[-400:])
+            except subprocess.TimeoutExpired as ex_:
+                return ((ex_.stdout or b"").decode("utf-8", "replace"), "timeout", "")
+        finally:
+            free.put(d)
+    with ThreadPoolExecutor(max_workers=jobs) as ex:
+        return list(ex.map(one, range(len(programs))))
